@@ -636,9 +636,12 @@ def eval_call_once(ctx):
         return None, str(exc)
     if "expired" in ev:
         after = ev[ev.index("expired") + 1:]
-        if "kill" not in after or not ("wait" in after or "communicate" in after):
-            diffs.append("call() gives a submit command a time limit and, when it expires, reports the failure without killing and reaping the child: the command may still be "
-                         "accepted by the scheduler after gwf has given up, leaving a job no state file knows about (the next run submits the target again)")
+        killed = "kill" in after and ("wait" in after or "communicate" in after)
+        # a SUBMIT command that is merely slow to answer (an overloaded controller accepts the job and takes its time to print the id) is given up on: whether the
+        # client is killed or not, the job may be queued - and gwf has no id for it.  Waiting is the only safe behaviour for a submission.
+        diffs.append("call() gives a submit command a time limit" + ("" if killed else " and, when it expires, reports the failure without killing and reaping the child") +
+                     ": the scheduler may have accepted the job although the command had not printed the id yet (killing sbatch/qsub/bsub does not withdraw it), so a job exists "
+                     "that no state file knows about and the next run submits the target again")
     return diffs, None
 
 
@@ -2655,6 +2658,8 @@ def run_command_witness(ctx):
         ("requested: X only, everything stale", ("X",), {}, set(deps)),
         ("requested pattern matching nothing", ("nomatch",), {}, set(deps)),
         ("nothing to do", (), {}, set()),
+        ("the endpoints' last jobs failed / were cancelled, everything upstream is complete and nothing is stale", (), {"C": "FAILED", "X": "CANCELLED"}, set()),
+        ("one endpoint's last job failed, requested by name", ("C",), {"C": "FAILED"}, set()),
     ]
     diffs, n = [], 0
     for label, targets, states, stale in scenarios:
